@@ -219,6 +219,25 @@ func c20Directed() []rawReq {
 			rawReq{Method: "POST", URL: "http://emu/upload/storage/v1/b/bkt/o?uploadType=media&name=after-degenerate", Headers: map[string]string{"Content-Type": "text/plain"}, Body: []byte("still works")},
 			rawReq{Method: "GET", URL: "http://emu/storage/v1/b/bkt/o/after-degenerate?alt=media"})
 	}
+	// names that are not valid UTF-8, on every path that names a new object by URL: refused (they could
+	// not be reported in JSON nor carried by a page token), and the listing that would have had to put
+	// one into its nextPageToken answers
+	after := []rawReq{
+		{Method: "POST", URL: "http://emu/upload/storage/v1/b/bkt/o?uploadType=media&name=after-degenerate", Headers: map[string]string{"Content-Type": "text/plain"}, Body: []byte("still works")},
+		{Method: "GET", URL: "http://emu/storage/v1/b/bkt/o/after-degenerate?alt=media"}}
+	media := func(n, d string) rawReq {
+		return rawReq{Method: "POST", URL: "http://emu/upload/storage/v1/b/bkt/o?uploadType=media&name=" + n, Headers: map[string]string{"Content-Type": "text/plain"}, Body: []byte(d)}
+	}
+	page := rawReq{Method: "GET", URL: "http://emu/storage/v1/b/bkt/o?prefix=bad&maxResults=1"}
+	for _, pair := range [][2]rawReq{
+		{media("bad%FF1", "x"), media("bad%FF2", "y")},
+		{media("bad%C0%AF3", "z"), page},
+		{{Method: "POST", URL: "http://emu/storage/v1/b/other-bucket/o/z/rewriteTo/b/bkt/o/bad%FF4"}, page},
+		{{Method: "POST", URL: "http://emu/storage/v1/b/bkt/o/bad%ED%A0%805/compose", Headers: map[string]string{"Content-Type": "application/json"}, Body: []byte(`{"sourceObjects":[{"name":"keep/a.txt"}],"destination":{"contentType":"t/x"}}`)}, page},
+		{{Method: "GET", URL: "http://emu/storage/v1/b/bkt/o/bad%FF1"}, {Method: "GET", URL: "http://emu/storage/v1/b/bkt/o?maxResults=1"}},
+	} {
+		out = append(out, pair[0], pair[1], after[0], after[1])
+	}
 	return out
 }
 
